@@ -191,3 +191,148 @@ Definition data_ok (rs : resolver) (app : option bytes) (d : bytes) : bool :=
   end.
 Definition state_wf_rs (rs : resolver) (s : state) : bool :=
   state_wf s && data_ok rs (st_app s) (st_data s).
+
+(* ---------- address maps (wallet/address.go, wire/address.go) ---------- *)
+(* a Go map[BackendID]Address as an association list sorted by key; values are the marshaled address *)
+Definition amap := list (Z * bytes).
+Fixpoint amap_insert (k : Z) (v : bytes) (m : amap) : amap :=
+  match m with
+  | [] => [(k, v)]
+  | (k', v') :: r =>
+      if (k <? k')%Z then (k, v) :: m
+      else if (k =? k')%Z then (k, v) :: r
+      else (k', v') :: amap_insert k v r
+  end.
+Definition amap_of_list (es : list (Z * bytes)) : amap :=
+  fold_left (fun m e => amap_insert (fst e) (snd e) m) es [].
+
+(* counts that are int32/uint32 on the wire: the loop runs `l` times; the model unrolls at most
+   `many_cap` iterations and fails afterwards (equivalent on every input with fewer entries than
+   that; see DESIGN.md, trusted base) *)
+Definition many_cap : N := 70000.
+Definition dec_many {A} (l : N) (d : prog A) : prog (list A) :=
+  xs <- dec_n (N.to_nat (N.min l many_cap)) d ;; if many_cap <? l then Fail else Ret xs.
+
+Definition enc_amap (m : amap) : bytes :=
+  enc_i32 (Z.of_nat (length m)) ++ cat (fun p => enc_i32 (fst p) ++ enc_marsh (snd p)) m.
+Definition known_backend_z (z : Z) : bool := (z =? 0)%Z.
+
+(* wallet.AddressDecMap: NewAddress(idx) must know the backend; sim address = exactly 64 bytes *)
+Definition dec_waddr_entry : prog (Z * bytes) :=
+  idx <- dec_i32 ;;
+  if negb (known_backend_z idx) then Fail else
+  bs <- dec_marsh ;; if (length bs =? addr_len)%nat then Ret (idx, bs) else Fail.
+Definition dec_wamap : prog amap :=
+  l <- dec_i32 ;;
+  if (l <? 0)%Z then Fail else
+  es <- dec_many (Z.to_N l) dec_waddr_entry ;; Ret (amap_of_list es).
+Definition enc_wamaps (l : list amap) : bytes := enc_i32 (Z.of_nat (length l)) ++ cat enc_amap l.
+Definition dec_wamaps : prog (list amap) :=
+  l <- dec_i32 ;;
+  if (l <? 0)%Z then Fail else dec_many (Z.to_N l) dec_wamap.
+
+(* wire.AddressDecMap: wire.NewAddress() regardless of the index; sim wire address: copy into 32 bytes *)
+Definition wire_addr_len : nat := 32.
+Definition pad_to (n : nat) (bs : bytes) : bytes := firstn n (bs ++ repeat Byte.x00 n).
+Definition dec_raddr_entry : prog (Z * bytes) :=
+  idx <- dec_i32 ;; bs <- dec_marsh ;; Ret (idx, pad_to wire_addr_len bs).
+Definition dec_ramap : prog amap :=
+  l <- dec_i32 ;;
+  if (l <? 0)%Z then Fail else
+  es <- dec_many (Z.to_N l) dec_raddr_entry ;; Ret (amap_of_list es).
+Definition dec_ramaps : prog (list amap) :=
+  l <- dec_i32 ;;
+  if (l <? 0)%Z then Fail else dec_many (Z.to_N l) dec_ramap.
+
+(* single-backend maps: the configuration the repository can build offline *)
+Definition wamap_wf (m : amap) : bool :=
+  match m with [(k, a)] => (k =? 0)%Z && (length a =? addr_len)%nat | _ => false end.
+Definition ramap_wf (m : amap) : bool :=
+  match m with
+  | [(k, a)] => (-2147483648 <=? k)%Z && (k <? 2147483648)%Z && (length a =? wire_addr_len)%nat
+  | _ => false end.
+
+(* ---------- signatures (wallet/sig.go) ---------- *)
+(* sparse signatures: a bit mask of ceil(n/8) bytes (bit i%8 of byte i/8 = slot i present), then the
+   present signatures in order *)
+Definition sigs := list (option bytes).
+Definition mask_bits (l : sigs) : list bool := map (fun o => match o with Some _ => true | None => false end) l.
+Fixpoint bits_byte (bs : list bool) (k : nat) : N :=        (* little end first *)
+  match k, bs with
+  | S k', b :: r => (if b then 1 else 0) + 2 * bits_byte r k'
+  | _, _ => 0
+  end.
+Definition byte_of_bits (c : list bool) : byte := byte_of_N (bits_byte c 8).
+Definition bits_of_byte (b : byte) : list bool := map (N.testbit (Byte.to_N b)) [0; 1; 2; 3; 4; 5; 6; 7].
+Fixpoint chunks8 (fuel : nat) (l : list bool) : list (list bool) :=
+  match fuel with
+  | O => []
+  | S f => match l with [] => [] | _ => firstn 8 l :: chunks8 f (skipn 8 l) end
+  end.
+Definition enc_mask (bits : list bool) : bytes := map byte_of_bits (chunks8 (length bits) bits).
+Definition enc_sigs (l : sigs) : bytes :=
+  enc_mask (mask_bits l) ++ cat (fun o => match o with Some s => s | None => [] end) l.
+Definition mask_len (n : nat) : nat := (n + 7) / 8.
+Fixpoint dec_sig_slots (bits : list bool) : prog sigs :=
+  match bits with
+  | [] => Ret []
+  | true :: r => s <- dec_fixed sig_len ;; rest <- dec_sig_slots r ;; Ret (Some s :: rest)
+  | false :: r => rest <- dec_sig_slots r ;; Ret (None :: rest)
+  end.
+Definition dec_sigs (n : nat) : prog sigs :=
+  mask <- dec_fixed (mask_len n) ;; dec_sig_slots (firstn n (flat_map bits_of_byte mask)).
+Definition sigs_wf (l : sigs) : bool :=
+  forallb (fun o => match o with Some s => (length s =? sig_len)%nat | None => true end) l.
+
+(* ---------- transaction (channel/transaction.go) ---------- *)
+Definition txv := option (state * sigs).      (* None: State == nil *)
+Definition enc_tx (t : txv) : bytes :=
+  match t with
+  | None => enc_u8 0
+  | Some (s, sg) => enc_u8 1 ++ enc_state s ++ enc_sigs sg
+  end.
+Definition dec_tx (rs : resolver) : prog txv :=
+  b <- dec_u8 ;;
+  if b =? 0 then Ret None
+  else if b =? 1 then
+    s <- dec_state rs ;;
+    sg <- dec_sigs (N.to_nat (num_parts (al_bals (st_alloc s)))) ;; Ret (Some (s, sg))
+  else Fail.
+Definition tx_wf (rs : resolver) (t : txv) : bool :=
+  match t with
+  | None => true
+  | Some (s, sg) => state_wf_rs rs s && (len sg =? num_parts (al_bals (st_alloc s))) && sigs_wf sg
+  end.
+
+(* ---------- parameters (channel/params.go) ---------- *)
+Record params := mkParams {
+  p_cd : N; p_parts : list amap; p_app : option bytes; p_nonce : Z;
+  p_ledger : bool; p_virtual : bool; p_aux : bytes }.
+Definition enc_params (p : params) : bytes :=
+  enc_u64 (p_cd p) ++ enc_wamaps (p_parts p) ++ enc_optapp (p_app p) ++ enc_bigint (p_nonce p)
+  ++ enc_bool (p_ledger p) ++ enc_bool (p_virtual p) ++ p_aux p.
+(* what backend/sim/channel.CalcID feeds to SHA-256 *)
+Definition id_preimage (p : params) : bytes :=
+  enc_wamaps (p_parts p) ++ enc_bigint (p_nonce p) ++ enc_u64 (p_cd p) ++ enc_optapp (p_app p)
+  ++ enc_bool (p_ledger p) ++ enc_bool (p_virtual p).
+(* NewParams / ValidateParameters *)
+Definition nonce_ok (z : Z) : bool := (0 <=? z)%Z && (N.of_nat (nbytes (Z.to_N z)) <=? MaxNonceLen).
+Definition new_params_ok (p : params) : bool :=
+  negb (p_cd p =? 0) && (MinNumParts <=? len (p_parts p)) && (len (p_parts p) <=? MaxNumParts)
+  && nonce_ok (p_nonce p)
+  && forallb (fun m => negb (len m =? 0) && forallb (fun e => known_backend_z (fst e)) m) (p_parts p).
+Definition dec_params (rs : resolver) : prog params :=
+  cd <- dec_u64 ;;
+  parts <- dec_wamaps ;;
+  app <- dec_optapp rs ;;
+  nonce <- dec_bigint ;;
+  ledger <- dec_bool ;;
+  virt <- dec_bool ;;
+  aux <- dec_fixed 256 ;;
+  let p := mkParams cd parts (option_map fst app) nonce ledger virt aux in
+  if new_params_ok p then Ret p else Fail.
+Definition params_wf (rs : resolver) (p : params) : bool :=
+  new_params_ok p && (p_cd p <? 18446744073709551616) && forallb wamap_wf (p_parts p)
+  && match p_app p with None => true
+     | Some d => (length d =? addr_len)%nat && match rs d with Some _ => true | None => false end end
+  && (length (p_aux p) =? 256)%nat.
